@@ -6,7 +6,7 @@
  'clauses': 'free(p) of a live block from any state satisfying HEAP: HEAP is re-established with p\'s bytes free and coalesced with a free lower and/or upper neighbour (the coalesced representation is unique: the real memory - __flp, every sz / nx field, __brkval - encodes exactly it), the break is lowered when the topmost chunk becomes free; every other live block (arbitrary ghost block) keeps its header and contents and stays off the free list; live bytes shrink by exactly p\'s chunk; __allocation_counter counts the live blocks; when the last live block is freed __flp == NULL and __brkval == heap_start (no memory lost); free(NULL) changes nothing. Each of: no neighbour free, lower, upper, both, break lowered, heap emptied is reachable (canaries)',
  'params': {'C10_ARENA': [128], 'NF': [0, 1, 2, 3]}, 'params_thorough': {'C10_ARENA': [128, 256]},
  'unwindset': ['lin_free.0:4', 'lin_free.1:4'], 'unwind': 6, 'complete_unwinding': 'the walks of free see at most 4 chunks (unwound 4 times, unwinding assertions); spec loops are bounded by C10_MAXN = 5',
- 'canaries': 2, 'timeout': 900,
+ 'canaries': 2, 'timeout': 1800,
  'assumptions': ['free(p): p is NULL or a live block handed out by malloc/realloc and not freed since (ISO C precondition)'],
  'witness': {'unwind': 6},
 } @*/
